@@ -29,6 +29,7 @@ type Program struct {
 	roMemo    map[*FuncInfo]int
 	rroMemo   map[*FuncInfo]int
 	cg        map[string][]string
+	dcg map[string][]string
 }
 
 // Load loads all packages of the module rooted at dir with build tag verif.
